@@ -1,6 +1,7 @@
 import GoframeModel.Ops.Clean
 import GoframeModel.Spec.SortDedup
-import GoframeModel.Lemmas.Refine
+import GoframeModel.Lemmas.RefineD
+import GoframeModel.Lemmas.Dedup
 /-
   C07 — DropDuplicates removes exactly the redundant rows and nothing else.
   The code compares rows through a string key (`getRowKey`); the specification compares cells. The
@@ -17,16 +18,19 @@ def FmtInj (ω : Oracle) : Prop :=
 
 /-- one cell's key determines the cell -/
 theorem cellKey_injective (ω : Oracle) (h : FmtInj ω) (name : Str) (a b : Cell) (rest₁ rest₂ : Str)
-    (hk : cellKey ω name a ++ rest₁ = cellKey ω name b ++ rest₂) : a = b ∧ rest₁ = rest₂ := by
-  sorry
+    (hk : cellKey ω name a ++ rest₁ = cellKey ω name b ++ rest₂) : a = b ∧ rest₁ = rest₂ :=
+  Dedup.cellKey_inj ω h.1 h.2 name a b rest₁ rest₂ hk
 
 /-- two rows have the same key iff they are identical on the compared columns — whatever characters
 the values contain -/
 theorem rowKey_injective (ω : Oracle) (h : FmtInj ω) {f : Frame} {n : Nat} (hs : f.Sorted) (hr : f.RectN n)
     (cs : List Str) (hcs : ∀ c ∈ cs, f.has c = true) (i j : Nat) (hi : i < n) (hj : j < n) :
     ∃ ki kj, f.rowKey ω i cs = .ok ki ∧ f.rowKey ω j cs = .ok kj ∧
-      (ki = kj ↔ Spec.sameOn cs (f.rowMap i) (f.rowMap j) = true) := by
-  sorry
+      (ki = kj ↔ Spec.sameOn cs (f.rowMap i) (f.rowMap j) = true) :=
+  -- (sortedness is not needed here: `get?` and `Row.getD` both read the first entry of a key)
+  have _ := hs
+  ⟨_, _, Dedup.rowKey_eq ω hr cs hcs i hi, Dedup.rowKey_eq ω hr cs hcs j hj,
+    Dedup.keyOf_eq_iff ω h.1 h.2 cs _ _⟩
 
 /-- the result is exactly the specification's: first / last / no member of each class of identical
 rows, in original order; without `Inplace` the receiver is untouched, with it the receiver is the result -/
@@ -35,7 +39,23 @@ theorem dedup_spec (ω : Oracle) (h : FmtInj ω) {f : Frame} {n : Nat} (hs : f.S
     (match Spec.dedupSpec f o.subset o.keep with
      | some e => f.dropDuplicates ω o = .ok (if o.inplace then (e, e) else (f, e))
      | none => (f.dropDuplicates ω o).isErr = true) := by
-  sorry
+  have hr' := Frame.rectN_nrows hr
+  unfold Spec.dedupSpec Frame.dropDuplicates
+  generalize (if o.subset.isEmpty then f.keys else o.subset) = cols
+  cases hp : parseKeep o.keep with
+  | none => simp [Outcome.isErr]
+  | some keep =>
+    by_cases hany : cols.any (fun c => !f.has c) = true
+    · simp [hany, Outcome.isErr]
+    · have hcs : ∀ c ∈ cols, f.has c = true := by simpa using hany
+      obtain ⟨keys, hkeys, hout⟩ := Dedup.dedup_core ω h.1 h.2 hs hr' cols hcs keep
+      have hname : f.map (fun kc => (kc.1, { kc.2 with data := pick kc.2.data (keepIdx keep keys) })) =
+          f.map (fun kc => (kc.1, { name := kc.1, data := pick kc.2.data (keepIdx keep keys) })) := by
+        apply List.map_congr_left
+        intro kc hkc
+        rw [← (hr kc hkc).2]
+      simp only [hany, hkeys, hout, hname, Outcome.bind_ok, Outcome.pure_eq]
+      cases o.inplace <;> simp
 
 /-- the pinned key (`name:value|`, nil rendered as `nil`) merges distinct rows: finding D7/D8 -/
 theorem pinned_key_collides :
